@@ -48,6 +48,8 @@ CORPUS = [
     # one character sequence shared by all examples, repeat counts differing, an extra letter inside it
     ('shared-sequence-with-extra-letter', ['ab-c', 'abb-c', 'abbb-c']),
     ('shared-sequence-with-dot', ['x.y', 'xx.y', 'x.yy']),
+    ('words-around-punctuation', ['ab/cde', 'fg/hij']),
+    ('backslash-before-a-letter', ['C:\\data', 'C:\\docs']),
 ]
 
 OPTIONS = [
@@ -55,6 +57,7 @@ OPTIONS = [
     ('tag', {'tag': True}),
     ('strip', {'strip': True}),
     ('extra-letters', {'extra_letters': '_-.'}),
+    ('extra-hyphen', {'extra_letters': '-'}),
     ('portable', {'dialect': 'portable'}),
     ('grep', {'dialect': 'grep'}),
 ]
@@ -131,7 +134,8 @@ def corpus_for(run):
                   'empty-and-blank': ('plain',), 'underscores': ('extra-letters',), 'repeats': ('plain',), 'tabs-newlines': ('plain',),
                   'right-aligned-constant': ('plain',), 'right-aligned-suffix': ('plain',), 'left-aligned-constant': ('plain',),
                   'left-aligned-prefix': ('plain',), 'short-and-long': ('plain',),
-                  'shared-sequence-with-extra-letter': ('plain', 'extra-letters'), 'shared-sequence-with-dot': ('plain',)}
+                  'shared-sequence-with-extra-letter': ('plain', 'extra-letters'), 'shared-sequence-with-dot': ('plain',),
+                  'words-around-punctuation': ('plain', 'extra-letters', 'extra-hyphen'), 'backslash-before-a-letter': ('plain', 'portable', 'grep')}
     return [(n, ex, on, o) for n, ex in CORPUS for on, o in OPTIONS if on in quick_opts.get(n, ())]
 
 
